@@ -616,13 +616,21 @@ func genRealPool(g *core.Gen) {
 	}
 }
 
-// randomLockPool: a lock the AcceptNonStd pool admits; between MTP and now it
-// is the F-C10-b / F-C12-a situation.
+// randomLockPool: a lock the pool admits: final on the past median time (the
+// pool checks that since the F-C10-b fix), or any lock with final sequences.
+// Between MTP and now with a non-final sequence was the F-C10-b / F-C12-a
+// situation; the pool now refuses it, so it cannot be staged through
+// ProcessTransaction any more (the stub source still stages it, see genLocks).
 func (pg *poolGen) randomLockPool(j int) {
 	t := &pg.s.txs[j]
 	t.lockKind = 'T'
-	t.lock = pg.s.mtp + pg.r.Range(-1, pg.s.now-pg.s.mtp+1)
-	t.allMax = pg.r.Chance(1, 4)
+	if pg.r.Bool() {
+		t.lock = pg.s.mtp - pg.r.Range(1, 3)
+		t.allMax = false
+	} else {
+		t.lock = pg.s.mtp + pg.r.Range(-1, pg.s.now-pg.s.mtp+1)
+		t.allMax = true
+	}
 }
 
 // genDishonest: a source whose descriptors lie about the fee.  Too high makes
